@@ -173,7 +173,7 @@ int c08_run(const char *tier) {
 	int thorough = !strcmp(tier, "thorough");
 	ev_build();
 	uint8_t param[1] = {0}; const char *d = getenv("VERIF_DEPTH");
-	e2_spec_t s = { .harness = "c08.hist", .param = param, .nparam = 1, .nevents = nev, .max_depth = d ? atoi(d) : (thorough ? 7 : 5), .label = "c08.hist", .evname = evname };
+	e2_spec_t s = { .harness = "c08.hist", .param = param, .nparam = 1, .nevents = nev, .max_depth = d ? atoi(d) : (thorough ? 6 : 5), .label = "c08.hist", .evname = evname };
 	e2_explore(&s);
 	rep_count("states", s.states); rep_count("transitions", s.transitions); rep_count("executions", s.execs);
 	rep_flag("exhaustive", s.exhaustive);
